@@ -326,4 +326,4 @@ def run(check, ctx):
     from . import c_pkcs1
     c_pkcs1.pkcs1_tables(check, ctx)
     check.undecided.append("the accept/reject decision for encoded messages with several simultaneous defects or "
-                           "geometries outside the table; timing; round-trip equality")
+                           "geometries outside the tables; timing")
